@@ -147,15 +147,28 @@ func TestVerifC17MqttConc(t *testing.T) {
 					name := fmt.Sprintf("k%d", cn)
 					cnMu.Unlock()
 					id := fmt.Sprintf("id%d", rng.Intn(nids))
-					cl, err := mqxDial(x.addr, id)
-					if err != nil {
+					// every other client is slow to read its CONNACK: unbuffered in-memory connection (the broker's write of
+					// the CONNACK blocks until the client reads), read after a short random delay
+					var cl *mqxClient
+					var err error
+					lazy := time.Duration(-1)
+					if rng.Intn(2) == 0 {
+						cl = mqxDialPipe(x, id)
+						lazy = time.Duration(rng.Intn(3000)) * time.Microsecond
+					} else if cl, err = mqxDial(x.addr, id); err != nil {
 						failMu.Lock()
 						fail = err.Error()
 						failMu.Unlock()
 						return
 					}
 					emit(vx.M{"ev": "inv", "c": name, "id": id})
-					code, err := cl.Connect(false, "")
+					var code byte = 255
+					if lazy < 0 {
+						code, err = cl.Connect(false, "")
+					} else if err = cl.ConnectSend(false, ""); err == nil {
+						time.Sleep(lazy)
+						code, err = cl.ConnectRecv(20 * time.Second)
+					}
 					if code == 255 {
 						failMu.Lock()
 						fail = fmt.Sprintf("no CONNACK: %v", err)
@@ -204,6 +217,10 @@ func TestVerifC17MqttConc(t *testing.T) {
 // attempt is parked other connections come, go and take ids over. Events are logged in the format of
 // MqttConnCap_Trace (inv when the CONNECT is sent, ret when the CONNACK is read, close / gone around the
 // end of a connection, a sample of len(Broker.clients) after every step); TLC looks for a linearisation.
+// A connection started with slow = true belongs to a client that is slow to read its CONNACK: it is connected over
+// an unbuffered in-memory connection (net.Pipe handed to Broker.handleConn) whose broker-side writes are held;
+// "release" opens the pipeline gate and returns when the broker is blocked writing the CONNACK, "take" lets the
+// client read it - other attempts are started, released and ended in between.
 type c17Gate struct {
 	parked  chan struct{}
 	release chan struct{}
@@ -213,6 +230,8 @@ type c17GConn struct {
 	cl       *mqxClient
 	gate     *c17Gate
 	res      chan byte
+	slow     bool // the client is slow to read its CONNACK: in-memory connection, the broker's writes are held
+	atAck    bool // (slow) the broker is blocked writing the CONNACK
 	done     bool // CONNACK read
 	accepted bool
 	ended    bool
@@ -261,21 +280,58 @@ func TestVerifC17MqttGated(t *testing.T) {
 				c.cl.Close()
 			}
 		}
+		// lockFree: can the broker lock be taken (within 300ms)?  The pinned tree writes the CONNACK of an attempt refused by
+		// the second check while it holds the broker lock: a client that does not read that CONNACK would stall the whole
+		// broker (and this harness with it), so such a client reads its CONNACK at once (its "take" step is then empty).
+		lockFree := func() bool {
+			for i := 0; i < 300; i++ {
+				if x.b.TryLock() {
+					x.b.Unlock()
+					return true
+				}
+				time.Sleep(time.Millisecond)
+			}
+			return false
+		}
+		take := func(name string) {
+			c := conns[name]
+			if c == nil || c.done || !c.atAck {
+				return
+			}
+			c.cl.gate.Release()
+			select {
+			case code := <-c.res:
+				if code == 255 {
+					fail = "no CONNACK after the slow reader came back"
+				} else {
+					finish(name, code)
+				}
+			case <-time.After(c17Wait):
+				fail = "no CONNACK after the slow reader came back"
+			}
+		}
 		for _, st := range beh[1:] {
 			name := vx.Str(st["c"])
 			switch vx.Str(st["a"]) {
 			case "start":
-				cl, err := mqxDial(x.addr, vx.Str(st["id"]))
-				if err != nil {
-					fail = err.Error()
-					break
+				slow, _ := st["slow"].(bool)
+				var cl *mqxClient
+				if slow {
+					cl = mqxDialPipe(x, vx.Str(st["id"]))
+					cl.gate.Hold()
+				} else {
+					var err error
+					if cl, err = mqxDial(x.addr, vx.Str(st["id"])); err != nil {
+						fail = err.Error()
+						break
+					}
 				}
 				cl.user = name
 				g := &c17Gate{parked: make(chan struct{}), release: make(chan struct{})}
 				gmu.Lock()
 				gates[name] = g
 				gmu.Unlock()
-				c := &c17GConn{cl: cl, gate: g, res: make(chan byte, 1)}
+				c := &c17GConn{cl: cl, gate: g, res: make(chan byte, 1), slow: slow}
 				conns[name] = c
 				w.Emit(vx.M{"ev": "inv", "c": name, "id": vx.Str(st["id"])})
 				if err := cl.ConnectSend(false, ""); err != nil {
@@ -286,8 +342,14 @@ func TestVerifC17MqttGated(t *testing.T) {
 					code, _ := cl.ConnectRecv(120 * time.Second)
 					c.res <- code
 				}()
+				var reached <-chan struct{}
+				if slow {
+					reached = cl.gate.Reached()
+				}
 				select {
 				case <-g.parked: // in the Connect pipeline: past the early check, not yet registered
+				case <-reached: // (slow reader) answered before it got there: the broker is blocked writing the CONNACK
+					c.atAck = true
 				case code := <-c.res: // answered before it got there
 					if code == 255 {
 						fail = "no CONNACK"
@@ -299,10 +361,19 @@ func TestVerifC17MqttGated(t *testing.T) {
 				}
 			case "release":
 				c := conns[name]
-				if c == nil || c.done {
+				if c == nil || c.done || c.atAck {
 					break
 				}
 				close(c.gate.release)
+				if c.slow {
+					select {
+					case <-c.cl.gate.Reached(): // decided; the CONNACK is being written to a client that does not read yet
+						c.atAck = true
+					case <-time.After(c17Wait):
+						fail = "no CONNACK written after the gate was opened"
+					}
+					break
+				}
 				select {
 				case code := <-c.res:
 					if code == 255 {
@@ -313,6 +384,8 @@ func TestVerifC17MqttGated(t *testing.T) {
 				case <-time.After(c17Wait):
 					fail = "no CONNACK after the gate was opened"
 				}
+			case "take":
+				take(name)
 			case "end":
 				c := conns[name]
 				if c == nil || !c.accepted || c.ended {
@@ -328,6 +401,9 @@ func TestVerifC17MqttGated(t *testing.T) {
 				w.Emit(vx.M{"ev": "gone", "c": name})
 				c.cl.Close()
 			}
+			if c := conns[name]; fail == "" && c != nil && c.atAck && !c.done && !lockFree() {
+				take(name) // its CONNACK is being written under the broker lock
+			}
 			if fail != "" {
 				break
 			}
@@ -340,6 +416,9 @@ func TestVerifC17MqttGated(t *testing.T) {
 			case <-c.gate.release:
 			default:
 				close(c.gate.release)
+			}
+			if c.cl.gate != nil {
+				c.cl.gate.Release()
 			}
 			if !c.done {
 				select {
